@@ -138,6 +138,7 @@ type Trace struct {
 	FaultDelivs   int // deliveries recorded when the fault was injected
 	FaultInFlight int
 	FaultAtCreate bool
+	FaultEarly    bool // fault injected before the constructor returned to the harness (output length unknown)
 
 	Terminated             bool
 	TerminatedAt           int64
